@@ -138,7 +138,7 @@ class Ctx:
                 open(p, "w").write(s)
         workers = workers or NCPU
         args = ["java", "-XX:+UseParallelGC", "-Xss64m"]
-        args.append("-Xmx%s" % (heap or os.environ.get("VERIF_TLC_HEAP", "6g")))
+        args.append("-Xmx%s" % (heap or os.environ.get("VERIF_TLC_HEAP", "4g")))
         if dfs:
             args.append("-Dtlc2.tool.queue.IStateQueue=StateDeque")
         args += ["-cp", TLA_CP, "tlc2.TLC", "-metadir", os.path.join(rundir, "md"),
